@@ -152,6 +152,14 @@ pub fn fence_family() -> Vec<String> {
         base.push(format!("---\n{yaml}---\n"));
         base.push(format!("---\n{yaml}---\n\n= sec\n\n> para\n"));
     }
+    // a first line that begins with `---` without being a fence (a rule, a comment), content, then a real fence pair
+    for head in ["---- Pancakes ----", "--- a comment", "----", "---x", "--- ---", "---:"] {
+        for yaml in ["", "note: serve warm\n"] {
+            base.push(format!("{head}\nMix @flour{{200%g}} and milk1.\n---\n{yaml}---\nFry in a #pan for ~{{2%min}}.\n"));
+            base.push(format!("{head}\n\nstep two\n\n---\n{yaml}---\n"));
+            base.push(format!("\n{head}\nabc\n---\n---\nxyz\n"));
+        }
+    }
     // spellings of each document: as is; white-space-only lines before it; CRLF throughout; no final newline
     let mut v = Vec::new();
     for s in base {
